@@ -3,6 +3,7 @@ package walworld
 import (
 	"fmt"
 	"os"
+	"runtime"
 	"sort"
 	"strconv"
 	"strings"
@@ -27,7 +28,8 @@ func TestDbgBulk(t *testing.T) {
 	var tBulk, tOther time.Duration
 	nBulk, nOther := 0, 0
 	viol := map[string]int{}
-	for i := 0; i < n; i++ {
+	first, _ := strconv.Atoi(os.Getenv("JSIM_DBG_FIRST"))
+	for i := first; i < first+n; i++ {
 		seed := tape.Mix(11, uint64(i))
 		t0 := time.Now()
 		r := sim.Exec(C14, "C14", "quick", seed, sim.Options{PanicIsViolation: true})
@@ -73,5 +75,49 @@ func TestDbgBulk(t *testing.T) {
 	}
 	for k, v := range viol {
 		fmt.Printf("  VIOLATION %s x%d\n", k, v)
+	}
+}
+
+// TestDbgBulkDeterminism: developer aid (JSIM_DBG=1): bulk runs repeated under several GOMAXPROCS must give
+// the same trace hash, evaluation count and probe counts.
+func TestDbgBulkDeterminism(t *testing.T) {
+	if os.Getenv("JSIM_DBG") == "" {
+		t.Skip()
+	}
+	n, _ := strconv.Atoi(os.Getenv("JSIM_DBG_N"))
+	if n == 0 {
+		n = 400
+	}
+	nb, bad := 0, 0
+	for i := 0; i < n; i++ {
+		seed := tape.Mix(23, uint64(i))
+		var ref sim.RunResult
+		for rep, g := range []int{1, 2, 4, 16, 3, 1} {
+			old := runtime.GOMAXPROCS(g)
+			r := sim.Exec(C14, "C14", "quick", seed, sim.Options{PanicIsViolation: true})
+			runtime.GOMAXPROCS(old)
+			if !strings.HasSuffix(r.Events[0], " bulk") {
+				break
+			}
+			if rep == 0 {
+				ref = r
+				nb++
+				continue
+			}
+			if r.TraceHash != ref.TraceHash || r.Evals != ref.Evals || fmt.Sprint(r.Probes) != fmt.Sprint(ref.Probes) || fmt.Sprint(r.Faults) != fmt.Sprint(ref.Faults) || r.TapeLen != ref.TapeLen {
+				bad++
+				fmt.Printf("NONDETERMINISTIC seed-index %d gomaxprocs %d: hash %x/%x evals %d/%d tapelen %d/%d\n  %v\n  %v\n", i, g, r.TraceHash, ref.TraceHash, r.Evals, ref.Evals, r.TapeLen, ref.TapeLen, r.Probes, ref.Probes)
+				for k := range r.Events {
+					if k >= len(ref.Events) || r.Events[k] != ref.Events[k] {
+						fmt.Printf("  first differing event %d: %q vs %q\n", k, r.Events[k], ref.Events[min(k, len(ref.Events)-1)])
+						break
+					}
+				}
+			}
+		}
+	}
+	fmt.Printf("bulk runs %d, nondeterministic repetitions %d\n", nb, bad)
+	if bad > 0 {
+		t.Fail()
 	}
 }
